@@ -120,13 +120,14 @@ def msg_jobs(tier):
     import c01
     J = []
     S = wire.std_shapes(tier)
-    shapes = ['i32x2', 'str2', 'msg1'] if tier == 'quick' else list(S)
+    # quick tier: the string-array shape's error paths mostly exceed 150 s (measured: 55 of 160 hostile/truncation jobs inconclusive) -> thorough only
+    shapes = ['i32x2', 'msg1'] if tier == 'quick' else list(S)
     for sname in shapes:
         m = S[sname]; toks = wire.tokens(m); full = wire.size(toks); W = wire.nwords(toks); labels = wire.word_labels(toks)
         d = c01.depth(m) + 1
         def mk(tag, gen, fam):
             return Job('msg_parse %s %s' % (sname, tag), 'B', 'harness/cpp/msg_wire.cpp', 'harness_msg_parse', gen_c=gen, unwind=24, loop_rules={'harness_msg_parse': 170}, family='msg_parse/' + fam,
-                       timeout=(150 if tier == 'quick' else 900), mem_gb=8, maxalloc=None, **dict(c01.COMMON, mode=MSG_MODE))
+                       timeout=(100 if tier == 'quick' else 900), mem_gb=3, maxalloc=None, **dict(c01.COMMON, mode=MSG_MODE))
         J.append(mk('garbage+3', wire.gen_c(m, garbage=3, concrete_strings=True, tables=True), 'garbage'))
         truncs = range(0, full) if tier != 'quick' else sorted(set(list(range(0, full, 3)) + [full - 1, full - 2, 11, 12, 13]))
         for t in truncs:
